@@ -192,6 +192,15 @@ def type_gate(n: int, c0: int, c1: int, c2: int, k1: bool, k2: bool, dup: bool) 
     P.check(hs == want, "headers-keep-order-and-duplicates", "gate:headers")
     P.check(enforce_headers({n1: "1", n2: b"2"}, name="h") == want[:2], "header-mapping", "gate:header-mapping")
     P.check(enforce_headers(None, name="h") == [], "no-headers", "gate:none")
+    # a header list the caller goes on using: what one request adds for itself (framing headers) is not in the next one
+    from .. import scen as _scen
+
+    mine = [(b"Host", b"a.test"), (b"A", b"1"), (b"a", b"2")]
+    r1 = _scen.build_request("POST", "http://a.test/", headers=mine, content=b"abc")
+    r2 = _scen.build_request("GET", "http://a.test/", headers=mine, content=None)
+    P.check(r1.ok and r2.ok and r2.value.headers == [(b"Host", b"a.test"), (b"A", b"1"), (b"a", b"2")]
+            and r1.value.headers == [(b"Host", b"a.test"), (b"A", b"1"), (b"a", b"2"), (b"Content-Length", b"3")],
+            "headers-keep-order-and-duplicates", lambda: f"gate:header-list-reused:{r2.value.headers if r2.ok else r2.kind()!r}")
     # the same gate at every place that accepts text: header names and values (sequence and mapping form), the
     # method, the URL as one string and by components
     enc = s.encode("ascii") if ascii_only else None
